@@ -100,3 +100,9 @@ pub fn chan_dump(
 	let chan = peer_state.channel_by_id.get(channel_id)?.as_funded()?;
 	Some((chan.context.channel_keys_id, chan.verif_chan_dump()))
 }
+
+// ---------------------------------------------------------------------------------------------
+// Selecting the ChannelManager load path (legacy maps / reconstruction from monitors)
+// ---------------------------------------------------------------------------------------------
+
+pub use crate::ln::channelmanager::verif_hooks_reload::set_reconstruct_manager_from_monitors;
